@@ -207,6 +207,18 @@ def gen_c19(seed, tier="quick"):
     if spec["conds"][0]["kind"] in ("paramcond", "data") or "sampler" not in spec["conds"][0]:
         spec["conds"].insert(0, {"kind": "pinn", "weight": 1.0, "model": 0, "resid": "u_minus_c", "c": 1.0,
                                  "sampler": _sampler(r, True)})
+    rd = rnd(seed, "deeponet-c19")
+    if rd.random() < 0.2:
+        # a physics-informed DeepONet condition (deterministic: fixed function parameters, data / grid trunk points):
+        # trunk and branch weights are part of the state a checkpoint must restore
+        spec["don"] = {"thidden": rd.choice(([4], [3, 3])), "bhidden": rd.choice(([4], [5, 3])), "m": rd.choice((2, 3)),
+                       "disc": [round(0.05 + 0.9 * j / 5, 4) for j in range(rd.choice((3, 6)))]}
+        spec["fsets"] = [{"fam": rd.choice(("lin", "sin", "quad")), "ks": [round(rd.uniform(0.1, 1.5), 3) for _ in range(rd.choice((1, 2, 3)))]}]
+        for _ in range(rd.choice((1, 2))):
+            kind = rd.choice(("data", "grid"))
+            smp = {"kind": kind, "pts": [round(rd.uniform(0, 1), 3) for _ in range(3)]} if kind == "data" else {"kind": kind, "n": rd.choice((2, 4))}
+            spec["conds"].append({"kind": "pidon", "weight": rd.choice((1.0, 0.5)), "model": 0, "fset": 0, "tsampler": smp,
+                                  "resid": rd.choice(("u_minus_f", "u_minus_c", "du_minus_f")), "c": 1.0})
     c_int = r.choice((1, 1, 2, 3))
     w_int = r.choice((1, 2, 3, -1))
     N = spec["N"]
